@@ -107,6 +107,14 @@ func (eng *engine) runEventLoops(ctx context.Context, numEventLoop int) error {
 		el.eventHandler = eng.eventHandler
 		for _, ln := range lns {
 			if err = el.poller.AddRead(ln.packPollAttachment(el.accept), false); err != nil {
+				// This event-loop has not been registered yet, so closeEventLoops
+				// won't reach its poller nor the listeners it has just created.
+				_ = el.poller.Close()
+				if i > 0 {
+					for _, l := range lns {
+						l.close()
+					}
+				}
 				return err
 			}
 		}
